@@ -29,9 +29,9 @@ Theorem hdr_intervals_fit_buffer data fs upper bs outs :
 Proof.
   unfold highest_density_region. destruct (zsum data <=? 0); [discriminate|].
   pose proof (hdr_loop_fits data (rev (argsort data)) (zsum data) upper bs
-                (zseqn 1 (length data - 1)) None fs) as H.
-  destruct (hdr_loop data (rev (argsort data)) (zsum data) upper bs (zseqn 1 (length data - 1)) None fs)
-    as [o rem]. cbn [fst] in H.
+                (zseqn 1 (length data - 1)) (Some (zget data (zget (rev (argsort data)) 0))) fs) as H.
+  destruct (hdr_loop data (rev (argsort data)) (zsum data) upper bs (zseqn 1 (length data - 1))
+              (Some (zget data (zget (rev (argsort data)) 0))) fs) as [o rem]. cbn [fst] in H.
   intros E. injection E as <-. apply Forall_app. split; [exact H|].
   rewrite Forall_map, Forall_forall. intros fd _. unfold fits. cbn. lia.
 Qed.
